@@ -119,4 +119,15 @@ theorem ainvl_run {s s' : State} {l l' : ALog} (es : List Ev) (hi : Inv s) (hl :
     · rename_i s1 o hs
       exact ih (inv_step hi hs) (ainvl_step hi.q hl hs) h
 
+theorem ninv_runA {s s' : State} {l l' : ALog} (es : List Ev) (hi : Inv s) (hl : NInv s l.n)
+    (h : runALog s l es = some (s', l')) : NInv s' l'.n := by
+  induction es generalizing s l with
+  | nil => simp only [runALog, Option.some.injEq, Prod.mk.injEq] at h; obtain ⟨rfl, rfl⟩ := h; exact hl
+  | cons e es ih =>
+    simp only [runALog] at h
+    split at h
+    · contradiction
+    · rename_i s1 o hs
+      exact ih (inv_step hi hs) (ninv_step hi.q hl hs) h
+
 end AnyioModel.Sync.Condition
